@@ -115,6 +115,8 @@ type AggOpts struct {
 	BuildInfo     map[string]interface{}
 }
 
+var scheduleRe = regexp.MustCompile(`schedule (\[[0-9,]*\])`)
+
 // Aggregate merges shard results, matches failures against known findings, writes evidence and replays.
 // Returns the process exit code.
 func Aggregate(o AggOpts) int {
@@ -293,11 +295,18 @@ func Aggregate(o AggOpts) int {
 		for i := 0; i < max; i++ {
 			f := unlisted[i]
 			p := filepath.Join(o.VerifDir, "replays", fmt.Sprintf("%s-%s.json", f.Prop, f.Key()))
-			rb, _ := json.MarshalIndent(map[string]interface{}{
+			art := map[string]interface{}{
 				"property": f.Prop, "case_id": f.Case, "config": cfgOf(f.Case), "kind": f.Kind, "digest": f.Digest, "detail": f.Detail, "tier": o.Tier,
 				"replay_cmd": fmt.Sprintf("./check --replay %s", p),
 				"how":        "the case id is the canonical, complete description of the inputs; ./check --replay re-executes exactly this case against /repo and prints model vs implementation",
-			}, "", " ")
+			}
+			if m := scheduleRe.FindStringSubmatch(f.Detail); m != nil {
+				// a concurrency counterexample: the recorded schedule (choice at every scheduling point) is replayed alone,
+				// without the explorer, and its trace of scheduling points is printed
+				art["schedule"] = m[1]
+				art["how"] = "./check --replay runs the program of the case id under the cooperative scheduler with exactly the recorded schedule (one execution, no exploration) and prints every scheduling point"
+			}
+			rb, _ := json.MarshalIndent(art, "", " ")
 			os.WriteFile(p, rb, 0o644)
 			replayPaths = append(replayPaths, p)
 			fmt.Printf("VIOLATION property=%s replay=%s\n", f.Prop, p)
